@@ -39,15 +39,16 @@ func (c *memConn) Close() error                { c.closed = true; return nil }
 // Machine is one real store instance on a memfs, driven through the
 // memcached text protocol, plus process-level operations.
 type Machine struct {
-	Cfg     *store.VerifCfg
-	FS      *vos.FS
-	St      *store.HStore
-	SC      mc.StorageClient
-	Conn    *mc.ServerConn
-	rw      *memConn
-	Stats   *mc.Stats
-	S       *vsched.Sched
-	Refused string // non-empty if the last open refused to start
+	Cfg       *store.VerifCfg
+	FS        *vos.FS
+	St        *store.HStore
+	SC        mc.StorageClient
+	Conn      *mc.ServerConn
+	rw        *memConn
+	Stats     *mc.Stats
+	S         *vsched.Sched
+	Refused   string // non-empty if the last open refused to start
+	AutoDrain bool   // drain background work right after every reopen
 }
 
 // NewMachine prepares globals and opens a store on fs (a fresh memfs if nil).
